@@ -7,7 +7,9 @@ import Driver.Drv.GetCFilter
 import Driver.Drv.Import
 import Driver.Drv.Lru
 import Driver.Drv.PushTx
+import Driver.Drv.Race
 import Driver.Drv.Rescan
+import Driver.Drv.Stop
 import Driver.Drv.Store
 import Driver.Drv.Subs
 import Driver.Drv.Utxo
@@ -23,7 +25,9 @@ def drivers : List (String × CaseFn) := [
   ("import", Driver.Drv.Import.runCase),
   ("lru", Driver.Drv.Lru.runCase),
   ("pushtx", Driver.Drv.PushTx.runCase),
+  ("race", Driver.Drv.Race.runCase),
   ("rescan", Driver.Drv.Rescan.runCase),
+  ("stop", Driver.Drv.Stop.runCase),
   ("store", Driver.Drv.Store.runCase),
   ("subs", Driver.Drv.Subs.runCase),
   ("utxo", Driver.Drv.Utxo.runCase)]
